@@ -27,13 +27,19 @@ type Linter struct {
 
 	// modules whose include statements are being resolved right now (cycle detection)
 	includeChain []string
+
+	// local variable declarations covered by an ignore comment for the unused/variable rule.
+	// The rule is reported after the subroutine has been linted, the ignore comments are out of scope by then
+	ignoredUnusedVariables map[*ast.Meta]bool
 }
 
 func New(c *config.LinterConfig, opts ...optionFunc) *Linter {
 	l := &Linter{
 		lexers: make(map[string]*lexer.Lexer),
 		ignore: &ignore{},
-		conf:   c,
+
+		ignoredUnusedVariables: make(map[*ast.Meta]bool),
+		conf:                   c,
 	}
 	for i := range opts {
 		opts[i](l)
@@ -171,7 +177,7 @@ func (l *Linter) lintUnusedVariables(ctx *context.Context) {
 	}
 
 	for k, o := range v.Items {
-		if o.IsUsed {
+		if o.IsUsed || l.ignoredUnusedVariables[o.Meta] {
 			continue
 		}
 		l.Error(UnusedVariable(o.Meta, k).Match(UNUSED_VARIABLE))
